@@ -170,7 +170,20 @@ def vault_case(sc: dict[str, Any]) -> dict[str, Any]:
         reg = sim.registry()
         kopf.on.event(GROUP, VERSION, PLURAL, registry=reg, id='ev')(sim.handler('ev', kind='event', default=('ok', {'n': 1})))
         sim.srv.valid_gens = set()
-        sim.srv.policy = lambda req: Plan(pre=sc['latency']) if req.route.get('kind') == 'patch' else None
+        sim.srv.close_latency = sc.get('close', 0)
+        # `slow`: the first PATCH of object o0 at t=10 is answered 503, so that request sleeps in its backoff (1 s) and retries while
+        # another request's 401 has the old session in the middle of closing (close() takes `close` seconds)
+        from sim.fakek8s import Fault
+        first = {'o0': bool(sc.get('slow'))}
+
+        def policy(req):
+            if req.route.get('kind') != 'patch':
+                return None
+            if first['o0'] and req.route.get('name') == 'o0' and sim.now >= 10:
+                first['o0'] = False
+                return Plan(fault=Fault('status', code=503))
+            return Plan(pre=sc['latency'])
+        sim.srv.policy = policy
         op = sim.operator('op1', reg, sim.settings(networking__error_backoffs=[1, 1]))
         names = [f'o{k}' for k in range(sc['n'])]
         for nm in names:
@@ -179,7 +192,7 @@ def vault_case(sc: dict[str, Any]) -> dict[str, Any]:
         sim.world.at(10, lambda: [sim.set_spec(nm, x=1) for nm in names], 1)
         sim.world.at(10, lambda: sim.srv.valid_gens.clear(), 1)
         sim.run(60)
-        reqs = [{'t': int(e['t']), 'gen': e['gen'], 'code': e['code']} for e in sim.recorder.events
+        reqs = [{'t': int(e['t']), 'sent': int(e.get('sent', e['t'])), 'gen': e['gen'], 'code': e['code']} for e in sim.recorder.events
                 if e['ev'] == 'srv.req' and e.get('kind') == 'patch' and e['t'] >= 10]
         logins = [e for e in sim.recorder.events if e['ev'] == 'op.login' and e['t'] >= 10]
         done = all((sim.obj(nm) or {}).get('status', {}).get('ev', {}).get('n') == 1 and
@@ -239,6 +252,7 @@ def run(ctx, rep) -> None:
     recs = retry_records(ctx.quick, ctx.seed)
     tscs = throttle_scenarios(ctx.seed, 240 if ctx.quick else 4000)
     vscs = [{'id': f'vault-{n}-{lat}', 'n': n, 'latency': lat} for n in (1, 2, 3, 5) for lat in (0, 1, 2)]
+    vscs += [{'id': f'vault-{n}-{lat}-close{c}-slow', 'n': n, 'latency': lat, 'close': c, 'slow': True} for n in (2, 3) for lat in (0, 1) for c in (0, 1, 2, 3)]
     with ProcessPoolExecutor(16) as ex:
         recs += list(ex.map(throttle_case, tscs, chunksize=2))
         recs += list(ex.map(vault_case, vscs, chunksize=1))
